@@ -2012,6 +2012,8 @@ void NifFile::PrepareData() {
 
 			auto dynamicShape = dynamic_cast<BSDynamicTriShape*>(bsTriShape);
 			if (dynamicShape) {
+				// The vertex count now comes from the partition, the dynamic data was sized by the shape itself
+				dynamicShape->dynamicData.resize(dynamicShape->GetNumVertices());
 				for (uint16_t i = 0; i < dynamicShape->GetNumVertices(); i++) {
 					dynamicShape->vertData[i].vert.x = dynamicShape->dynamicData[i].x;
 					dynamicShape->vertData[i].vert.y = dynamicShape->dynamicData[i].y;
